@@ -20,3 +20,17 @@ GROUPS["int_prims"] = G("int_prims", ["base.rs", "word.rs", "word_std.rs", "word
 # word types per tier
 WORDS_QUICK = ["u64", "u8"]
 WORDS_ALL = ["u8", "u16", "u32", "u64", "u128", "usize"]
+
+WORD_PRELUDE = ["base.rs", "word.rs", "word_std.rs", "word_lz_vstd.rs"]
+
+def stub_int():
+    return int_impl(lambda u: "stub")
+
+BIT_CONV = [("verify", "bit.to_int"), ("verify", "bit.from_int")]
+BIT_CONV_STUB = [("stub", "bit.to_int"), ("stub", "bit.from_int")]
+
+BVF_CORE = ["bvf.new", "bvf.into_inner", "bvf.capacity", "bvf.cfbl", "bvf.mod2n", "bvf.with_capacity", "bvf.zeros", "bvf.ones",
+            "bvf.len", "bvf.get", "bvf.set"]
+
+GROUPS["bvf_core"] = G("bvf_core", WORD_PRELUDE + ["bvf.rs"],
+    BASE_DECLS + stub_int() + BIT_CONV + [("decl", "bvf.consts")] + [("verify", u) for u in BVF_CORE])
